@@ -156,6 +156,12 @@ func decodeProtobufSignDoc(signDocBytes []byte) (apitypes.TypedData, error) {
 		return apitypes.TypedData{}, fmt.Errorf("invalid number of signer infos provided, expected 1 got %v", len(authInfo.SignerInfos))
 	}
 
+	// The typed data is built from the fee amount and gas limit only: a fee payer, fee granter or tip would not be
+	// covered by the signature, so throw an error at their presence as well
+	if fee := authInfo.Fee; (fee != nil && (fee.Payer != "" || fee.Granter != "")) || authInfo.Tip != nil {
+		return apitypes.TypedData{}, errors.New("auth info contains unsupported fields: Fee.Payer, Fee.Granter, or Tip")
+	}
+
 	// Validate payload messages
 	msgs := make([]sdk.Msg, len(body.Messages))
 	for i, protoMsg := range body.Messages {
